@@ -47,6 +47,16 @@ def streams(rng, tier):
         for _ in range(2):
             ops.append(f"disk {gen.hx(gen.rand_cell(rng, res=r))} {rng.randrange(5, kmax)}")
     ops += [f"maxdisk {k}" for k in (-5, -1, 0, 1, 2, 100, 13780509, 13780510, 13780511, 2147483647)]
+    # gridDisksUnsafe: batches with a failing (pentagon) cell first / in the middle / last / absent
+    for _ in range(40 if tier == "quick" else 400):
+        cs = [gen.rand_cell(rng) for _ in range(rng.randrange(1, 5))]
+        if rng.random() < 0.6:
+            r_ = rng.randrange(0, 16)
+            ds_ = [0] * r_
+            if r_ and rng.random() < 0.5:
+                ds_[-1] = rng.randrange(2, 7)
+            cs.insert(rng.randrange(len(cs) + 1), gen.mkcell(r_, rng.choice(gen.PENT), ds_))
+        ops.append(f"disksunsafe {rng.randrange(-1, 3)} {len(cs)} " + " ".join(gen.hx(c) for c in cs))
     ops2 = []
     for _ in range(400):
         m = gen.malformed(rng)
@@ -165,9 +175,44 @@ def evaluate(ctx, rng, tier, focus, budget, broken):
                                   key="ringUnsafe-encloses-pentagons" if enclosed else None))
         if len(viol_) >= 20:
             break
+    # 4. gridDisksUnsafe: on success, segment i is exactly the disk of cell i in ring order; batches that put a
+    #    cell whose disk meets a pentagon before / between / after cells with pentagon-free disks
+    pool = [h for h, _ in plan[:120 * budget]]
+    bops, bplan = [], []
+    for _ in range((60 if tier == "quick" else 400) * budget):
+        k = rng.randrange(0, 3)
+        cells_ = [gen.rand_cell(rng) for _ in range(rng.randrange(1, 5))]
+        if rng.random() < 0.6:
+            r_ = rng.randrange(0, 16)
+            bad_ = rng.choice(pool) if rng.random() < 0.5 else gen.mkcell(r_, rng.choice(gen.PENT), [0] * r_)
+            cells_.insert(rng.randrange(len(cells_) + 1), bad_)
+        bplan.append((cells_, k))
+        bops.append(f"disksunsafe {k} {len(cells_)} " + " ".join(gen.hx(c_) for c_ in cells_))
+    bout = ctx.c(bops, tag="eval_disks")
+    nbatch = 0
+    for o, (cells_, k), a in zip(bops, bplan, bout):
+        if not ok(a):
+            continue
+        nbatch += 1
+        got = parse_hs(a)
+        size = 3 * k * (k + 1) + 1
+        for i, h in enumerate(cells_):
+            bfs = nb.bfs(h, k)
+            if bfs is None:
+                continue
+            seg = got[i * size:(i + 1) * size]
+            dists = [bfs.get(c_) for c_ in seg]
+            if (len(seg) != size or set(seg) != set(bfs) or len(set(seg)) != size
+                    or any(dists[j] > dists[j + 1] for j in range(size - 1))):
+                viol_.append(viol(f"gridDisksUnsafe succeeded although segment {i} is not the disk of cell {gen.hx(h)} "
+                                  "in ring order", o, f"{len(bfs)} cells of the disk (or an error code)",
+                                  " ".join(gen.hx(c_) for c_ in seg)[:200]))
+                break
+    ops = ops + bops
+    out = out + bout
     return {"evaluations": len(ops) + len(nb.cache), "violations": viol_[:20], "distinct": ops,
             "coverage": {"origins": len(origins), "pentagons": sum(1 for h in origins if gen.is_pentagon(h)),
-                         "disks_vs_bfs": ndisk, "neighbour_lists": len(nb.cache),
+                         "disks_vs_bfs": ndisk, "disksunsafe_batches_succeeded": nbatch, "disksunsafe_batches": len(bops), "neighbour_lists": len(nb.cache),
                          "largest_k": max(k for _, k in plan)},
             "samples": [{"op": ops[i], "c_answer": out[i][:160]} for i in (0, len(ops) // 2)]}
 
